@@ -737,7 +737,7 @@ func generate(c *drv.Ctx) {
 	// (iv) seeded random larger cases
 	n := 8000
 	if thorough {
-		n = 150000
+		n = 100000
 	}
 	for i := 0; i < n; i++ {
 		cs := randomCase(c, reps)
